@@ -137,9 +137,9 @@ type Prop struct {
 	RunTimeoutSec int
 	// SyncYields: the orchestrator builds the workers from an instrumented scratch copy of the
 	// repository in which synchronisation operations are scheduling points (sim/yieldinst).
-	SyncYields bool
-	Assumptions   []string
-	Components    map[string]string
+	SyncYields  bool
+	Assumptions []string
+	Components  map[string]string
 }
 
 var Registry = map[string]*Prop{}
